@@ -23,7 +23,8 @@ from harness import httpw_driver as drv
 
 FAM = "httpw"
 APIS = ["set_header_str", "set_header_bytes", "add_header_value", "set_header_name", "add_header_name",
-        "status_reason", "cookie_name", "cookie_value", "cookie_domain", "cookie_path", "cookie_samesite", "redirect"]
+        "status_reason", "cookie_name", "cookie_value", "cookie_domain", "cookie_path", "cookie_samesite", "redirect",
+        "conn_reason", "wsgi_reason"]
 ALPHA_Q = "{0, 1, 9, 10, 13, 32, 34, 44, 58, 59, 60, 61, 92, 97, 127, 133, 233}"
 
 
@@ -80,10 +81,10 @@ def run(ctx):
             x = x[:k] + [ord(ch) for ch in pay] + x[k:]
         if api == "set_header_bytes":
             x = [c for c in x if c < 256]
-        rjobs.append((base + i + 1, api, x, api != "redirect" and rng.random() < 0.3))
+        rjobs.append((base + i + 1, api, x, api not in ("redirect", "conn_reason", "wsgi_reason") and rng.random() < 0.3))
     rtraces = [t for t in framework.pool_map(_job, rjobs) if t]
     ctx.validate(FAM, "Trace_HeaderInject", "Trace_HeaderInject.cfg", rtraces, label="c2s", sig_fn=sig_of)
-    ctx.cov["rule"] = ("cases: 12 API paths x every string of length <= %d over the class alphabet (NUL, C0, HTAB, LF, CR, SP, "
+    ctx.cov["rule"] = ("cases: 14 API paths (incl. reason phrase through a direct write_headers call and through WSGIContainer) x every string of length <= %d over the class alphabet (NUL, C0, HTAB, LF, CR, SP, "
                        "separators, VCHAR, DEL, C1, latin-1) plus one special code point (incl. U+010A, U+010D, U+2028) at the "
                        "start/middle/end of a benign string; plus seeded random strings up to 60 code points with classic "
                        "injection payloads, with and without a flush before finish" % ctx.pick(2, 3))
